@@ -101,7 +101,7 @@ ScratchPrivate   == \A t1, t2 \in Thr : (t1 # t2 /\ pc[t1] \in {"loaded", "ran"}
 ReleasedOnExit   == \A t \in Thr : (pc[t] = "gone" /\ ProcScope = "thread") => heap[P(t)] = 0
 \* no transform reads twiddle tables that were freed by another thread's exit
 TablesAlive      == ~uaf
-\* no operation on a Lagrange polynomial reads the processor of a thread that has exited (finding D8: violated by the design as pinned once polynomials change hands)
+\* no operation on a Lagrange polynomial reads the processor of a thread that has exited (defect D8: violated by the design as pinned, PolyProc = "creator", once polynomials change hands; holds for the repaired design)
 PolyProcAlive    == ~puaf
 AllDone == <>(\A t \in Thr : pc[t] = "gone")
 =============================================================================
